@@ -4,7 +4,7 @@ claimed), report which raise a VIOLATION (and whether with a failing input), the
 usage: seedtest.py <patch.diff> [--reverse] [--props C01,C02,…] [--tier quick]"""
 import sys, os, json, subprocess, time, argparse
 V = os.path.dirname(os.path.dirname(os.path.abspath(__file__)))
-ap = argparse.ArgumentParser(); ap.add_argument("patch"); ap.add_argument("--reverse", action="store_true"); ap.add_argument("--props"); ap.add_argument("--tier", default="quick")
+ap = argparse.ArgumentParser(); ap.add_argument("patch"); ap.add_argument("--reverse", action="store_true"); ap.add_argument("--props"); ap.add_argument("--tier", default="quick"); ap.add_argument("--stop-at-first", action="store_true")
 a = ap.parse_args()
 man = json.load(open(os.path.join(V, "MANIFEST.json")))
 props = a.props.split(",") if a.props else [c["property_id"] for c in man["checks"]]
@@ -28,6 +28,7 @@ try:
                 d = json.load(open(rp))
                 print("     ", (d.get("class") or ""), (d.get("what") or str(d.get("no_longer_checks")))[:300])
             except Exception as e: print("      (replay unreadable)", e)
+        if a.stop_at_first and r.returncode != 0: break
 finally:
     subprocess.run(["git", "-C", "/repo", "checkout", "--", "."], check=True)
     # evidence files were rewritten by runs on a modified tree: restore the committed ones
